@@ -1,6 +1,6 @@
 From Coq Require Import Extraction ExtrOcamlBasic.
 Require Import NixV.Base.Prelude NixV.Gen.GenVersion NixV.Gen.GenTables NixV.FileIO.Version.
 Extraction Language OCaml.
-Extraction "model_C10.ml" FormatVersion_op_eq FormatVersion_op_lt FormatVersion_op_ne FormatVersion_op_gt
+Extraction "model_C10.ml" FormatVersion_of_vector FormatVersion_op_eq FormatVersion_op_lt FormatVersion_op_ne FormatVersion_op_gt
   FormatVersion_op_le FormatVersion_op_ge FormatVersion_canRead FormatVersion_canWrite FormatVersion_op_index
   open_file good_header my_version lexltb FILE_FORMAT eq_specb canRead_specb gate_specb.
